@@ -383,6 +383,26 @@ def pagerank_graphs(ctx):
     # a sink whose row holds stored zeros only (the sink test of RandomSurferOperator is on the weights, not on the container)
     out.append(('sink_stored_zero', csr_of(raw_graph(3, [[(1, 0)], [(0, 1), (2, 1)], [(1, 1)]]))))
     out.append(('sink_stored_zeros4', csr_of(raw_graph(4, [[(1, 2), (3, 1)], [(0, 0), (2, 0)], [(1, 1)], [(3, 0)]]))))
+    # scale invariance: the transition matrix D^-1 A does not depend on the unit of the weights -- the same weighted graphs
+    # times 1e-9 / 1e-12 / 1e+12 (a node of total out-weight 1e-9 is not a sink), and nodes attached by weights 1e-9 .. 1e-7
+    # next to weights of order 1 (absolute thresholds on weights or degrees, e.g. np.isclose(w, 0), show here)
+    small = [(nm, a) for nm, a in out if 2 <= a.shape[0] <= 7 and a.nnz > 0]
+    for nm, a in rng.sample(small, 6 if quick else 40):
+        for sc in ((1e-9, 1e-12, 1e12) if not quick else (1e-9, rng.choice([1e-12, 1e12]))):
+            out.append(('scaled', (a * sc).tocsr()))
+    for _ in range(6 if quick else 40):
+        n = rng.randint(3, 7)
+        es = {(v, rng.randrange(v)) for v in range(1, n - 1)} | {(rng.randrange(n - 1), rng.randrange(n - 1)) for _k in range(n)}
+        es = sorted(e for e in es if e[0] != e[1])
+        es = sorted(set(es) | {(j, i) for i, j in es}) if rng.random() < 0.5 else es
+        ws = [float(rng.choice([1, 1, 2, 3])) for _ in es]
+        weak = n - 1                                   # the last node hangs on tiny weights
+        tiny = rng.choice([1e-9, 2e-9, 1e-8, 1e-7])
+        for j in rng.sample(range(n - 1), 2):
+            es.append((weak, j)); ws.append(tiny)
+            if rng.random() < 0.7:
+                es.append((j, weak)); ws.append(tiny * rng.choice([1, 2]))
+        out.append(('weak_node', mk(n, es, ws)))
     # beyond ncv = 20: ARPACK no longer spans the whole space (an Arnoldi iteration, not a direct solve)
     nbig = 26
     esb = [(i, (i + 1) % nbig) for i in range(nbig)] + [(i, rng.randrange(nbig)) for i in range(nbig) if rng.random() < 0.6]
@@ -417,8 +437,8 @@ def pagerank_plan(ctx):
                 ws = [ws[0], rng.choice(ws[1:])] if rng.random() < 0.5 else ws[1:]
             for w in ws:
                 for solver in SOLVERS:
-                    if solver == 'push' and rng.random() < 0.8:
-                        continue            # wrong on every input (F-push): a sample is enough
+                    if solver == 'push' and (rng.random() < 0.8 or name == 'scaled'):
+                        continue            # wrong on every input (F-push): a sample is enough; its int32 degrees overflow at 1e12
                     if d == 0.99 and solver in ('piteration', 'diteration') and rng.random() < (0.85 if quick else 0.5):
                         continue            # thousands of sweeps: sampled
                     k = iters_for(d)
